@@ -662,7 +662,39 @@ theorem centroid_of_drawn_shapes (sqrt : K → K) (half inner : K) (sinT cosT : 
   · intro i j; exact (circle_rect_half_turn sqrt half n0 n1 radius width height ca sa aa i j).2
   · intro i j; exact hexagon_half_turn half inner sinT cosT n0 n1 aa i j hs hcs
 
+/-- **mirror symmetry about the origin COLUMN** (`j ↦ 2⌊n1/2⌋ − j`) of unrotated circles, rectangles and hexagons: the composition of the half-turn
+(`circle_rect_half_turn`, `hexagon_half_turn`) with the row mirror (`mirror_when_unrotated`), under the same table hypotheses on the six edge normals -/
+theorem column_mirror_when_unrotated (sqrt : K → K) (half : K) (n0 n1 : Int) (radius width height inner : K) (sinT cosT : Nat → K)
+    (perm : Nat → Nat) (hperm : perm 0 = 5 ∧ perm 1 = 4 ∧ perm 2 = 3 ∧ perm 3 = 2 ∧ perm 4 = 1 ∧ perm 5 = 0)
+    (hs : ∀ n, n < 6 → sinT (perm n) = -sinT n) (hc : ∀ n, n < 6 → cosT (perm n) = cosT n)
+    (hs3 : ∀ n, n < 3 → sinT (n + 3) = -sinT n) (hc3 : ∀ n, n < 3 → cosT (n + 3) = -cosT n) (aa : Bool) (i j : Int) :
+    circleAt sqrt half n0 n1 radius 0 0 aa i (2 * (n1 / 2) - j) = circleAt sqrt half n0 n1 radius 0 0 aa i j ∧
+    rectangleAt half n0 n1 width height 0 0 1 0 aa i (2 * (n1 / 2) - j) = rectangleAt half n0 n1 width height 0 0 1 0 aa i j ∧
+    hexagonAt half inner sinT cosT n0 n1 0 0 aa i (2 * (n1 / 2) - j) = hexagonAt half inner sinT cosT n0 n1 0 0 aa i j := by
+  refine ⟨?_, ?_, ?_⟩
+  · exact column_mirror_of_half_turn_and_row_mirror _ _ _
+      (fun i j => (circle_rect_half_turn sqrt half n0 n1 radius width height 1 0 aa i j).1)
+      (fun i j => (mirror_when_unrotated sqrt half n0 n1 radius width height inner sinT cosT perm hperm hs hc aa i j).1) i j
+  · exact column_mirror_of_half_turn_and_row_mirror _ _ _
+      (fun i j => (circle_rect_half_turn sqrt half n0 n1 radius width height 1 0 aa i j).2)
+      (fun i j => (mirror_when_unrotated sqrt half n0 n1 radius width height inner sinT cosT perm hperm hs hc aa i j).2.1) i j
+  · exact column_mirror_of_half_turn_and_row_mirror _ _ _
+      (fun i j => hexagon_half_turn half inner sinT cosT n0 n1 aa i j hs3 hc3)
+      (fun i j => (mirror_when_unrotated sqrt half n0 n1 radius width height inner sinT cosT perm hperm hs hc aa i j).2.2) i j
+
 end Shapes
+
+/-- **non-vacuity of `centroid_of_centred_image` / `centroid_of_drawn_shapes`**: the 2 × 2 binary rectangle on a 6 × 6 array (even axes) over ℚ has
+row 0 and column 0 empty, is half-turn symmetric, and its centroid numerators are `3·T`, `3·T` — the origin sample ⌊6/2⌋ = 3 -/
+theorem centroid_of_drawn_rectangle_instance :
+    (∀ j : Int, exRect 0 j = 0) ∧ (∀ i : Int, exRect i 0 = 0) ∧
+    centroidNumK ⟨6, 6, exRect⟩ = (((3 : ℕ) : ℚ) * (centroidNumK ⟨6, 6, exRect⟩).2.2, ((3 : ℕ) : ℚ) * (centroidNumK ⟨6, 6, exRect⟩).2.2,
+      (centroidNumK ⟨6, 6, exRect⟩).2.2) := by
+  refine ⟨fun j => (exRect_border 0 j).1, fun i => (exRect_border i 0).2, ?_⟩
+  exact centroid_of_centred_image 6 6 exRect
+    (fun i j => (circle_rect_half_turn (fun x => x) (1 / 2 : ℚ) 6 6 0 2 2 1 0 false i j).2)
+    (fun _ j => (exRect_border 0 j).1) (fun _ i => (exRect_border i 0).2)
+
 
 /-- **segments do not overlap when the gap is positive** (judged on non-antialiased masks, both orientations): two segments
 drawn by `hex_segments` at distinct grid cells `a ≠ b` (cube coordinates, `q + r + s = 0`) never both contain a pixel.
